@@ -3,7 +3,7 @@
 patch=$1; cid=$2; tier=${3:-quick}
 cd /repo || exit 2
 if ! git diff --quiet; then echo "repo has uncommitted changes; stash/commit first"; exit 2; fi
-if ! git apply --3way "$patch" 2>/tmp/apply.err && ! git apply "$patch" 2>>/tmp/apply.err; then echo "PATCH DOES NOT APPLY"; cat /tmp/apply.err; git checkout -- . ; exit 3; fi
+if ! git apply --3way "$patch" 2>/tmp/apply.err && ! git apply "$patch" 2>>/tmp/apply.err; then echo "PATCH DOES NOT APPLY"; cat /tmp/apply.err; git reset -q --hard HEAD; exit 3; fi
 git reset -q
 cd /verif && ./check $cid --tier $tier 2>&1 | grep -v "^  monitors" | cut -c1-330 | head -8
 rc=${PIPESTATUS[0]}
